@@ -37,6 +37,8 @@ def run(ck: Checker):
     check_submit_wrappers(ck, 'C01-6')
     ck.rule('C01-7', 'the executors of mpservice.concurrent.futures hand calls through unchanged: submit forwards fn, *args, **kwargs on both branches of loud_exception; the loud wrappers return the value and re-raise the exception (AGREE+EXITS)', minimum=4)
     check_executor_wrappers(ck, 'C01-7')
+    ck.rule('C01-8', "the feeder's own parameters do not share a keyword namespace with the worker function's keyword arguments (positional-only) — 'for any worker function' includes one with a keyword named q or to_stop", minimum=2)
+    check_feeder_namespace(ck, 'C01-8')
 
 
 # ----------------------------------------------------------------------
@@ -290,3 +292,18 @@ def check_executor_wrappers(ck: Checker, rid: str):
             if bad:
                 probs.append('the wrapper raises something else than the original exception')
         ck.ob(rid, g, rets[0].ast if rets else g.node, not probs, '; '.join(probs) if probs else f'`{loud}` returns the call\'s value and re-raises its exception unchanged')
+
+
+def check_feeder_namespace(ck: Checker, rid: str):
+    """The feeder receives the user's keyword arguments for the worker function as **kwargs; its own parameters must
+    then not live in that namespace (positional-only): a worker keyword named like one of them (`q`, `to_stop`, `func`)
+    would replace the hand-off queue / the stop flag or make the feeder call fail -- the feeder dies and the consumer
+    waits for ever."""
+    for q in ('fifo_stream', 'async_fifo_stream'):
+        m = fifo.discover(ck.repo, ck.repo.func(STREAMER, q))
+        a = m.feeder.node.args
+        if a.kwarg is None:
+            ck.ob(rid, m.feeder, m.feeder.node.name, True, 'the feeder takes no **kwargs: nothing to collide with', nontrivial=False)
+            continue
+        shared = [x.arg for x in a.args + a.kwonlyargs]
+        ck.ob(rid, m.feeder, (m.feeder.node.lineno, f'{m.feeder.qualname} signature'), not shared, f'all own parameters of the feeder are positional-only; `**{a.kwarg.arg}` is the user\'s namespace alone' if not shared else f'the feeder\'s own parameters {shared} can be passed by keyword, in the same namespace as the user\'s `**{a.kwarg.arg}`: a worker keyword of that name (e.g. parmap(f, {shared[-1]}=1)) replaces the internal object or makes the feeder call fail — the feeder dies, the consumer hangs')
